@@ -47,14 +47,15 @@ type Contract struct {
 	Assumed  bool // ext / type / iface contracts are assumptions
 	Lets     []*Clause // let name = expr (evaluated in pre-state)
 	Stable   []string  // locations assumed untouched by unknown calls (justified by an encapsulation rule)
+	OnCall   map[string][]*Clause // parameter name -> assertions that must hold whenever it is called
 }
 
 type GhostDecl struct {
 	Pkg    string
 	Name   string
-	Sort   string // Int | Bool | (Array Int Int) ... ; "" when GoType is set
-	GoType string // a Go type expression, evaluated in package Pkg
-	PerObj bool   // ghost field: indexed by object ref
+	Dims   int    // number of Int index dimensions ("@" prefixes)
+	Sort   string // element sort Int | Bool | Real ; "" when GoType is set
+	GoType string // element Go type expression, evaluated in package Pkg
 }
 
 type GlobalInv struct {
@@ -95,6 +96,8 @@ type ContractSet struct {
 	SpecSyms map[string]specSig
 	Templates map[string]*Contract // template name -> contract body
 	Families []*Family
+	FieldFuncs map[string]string // pkg::Struct.field -> pkg::TypeContract
+	ModSets    map[string][]string
 }
 
 type Family struct {
@@ -115,11 +118,13 @@ func newContractSet() *ContractSet {
 	cs := &ContractSet{
 		Funcs: map[string]*Contract{}, Types: map[string]*Contract{}, Ifaces: map[string]*Contract{},
 		Ghosts: map[string]*GhostDecl{}, SpecSyms: map[string]specSig{}, Templates: map[string]*Contract{},
+		FieldFuncs: map[string]string{}, ModSets: map[string][]string{},
 	}
 	// built-in ghost state maintained by the generator
 	cs.Ghosts["clock"] = &GhostDecl{Name: "clock", Sort: "Int"}
-	for _, n := range []string{"chanlen", "chancap", "chansent", "chanrecv", "chanclosed", "held"} {
-		cs.Ghosts[n] = &GhostDecl{Name: n, Sort: "(Array Int Int)"}
+	cs.Ghosts["spawned"] = &GhostDecl{Name: "spawned", Sort: "Int"}
+	for _, n := range []string{"chanlen", "chancap", "chansent", "chanrecv", "chanclosed", "held", "once_done", "wg"} {
+		cs.Ghosts[n] = &GhostDecl{Name: n, Sort: "Int", Dims: 1}
 	}
 	return cs
 }
@@ -128,12 +133,13 @@ var clauseKeywords = map[string]bool{
 	"prop": true, "requires": true, "ensures": true, "ensures_panic": true, "modifies": true,
 	"loop": true, "nopanic": true, "maypanic": true, "arith": true, "pure": true, "inline": true,
 	"flag": true, "params": true, "results": true, "let": true, "noinline": true, "havoc": true, "stable": true,
+	"oncall": true,
 }
 
 var blockKeywords = map[string]bool{
 	"func": true, "type": true, "iface": true, "ext": true, "ghost": true, "global": true,
 	"lemma": true, "spec": true, "rule": true, "package": true, "template": true, "funcs": true,
-	"ghostfield": true,
+	"ghostfield": true, "fieldfunc": true, "modset": true,
 }
 
 var labelRe = regexp.MustCompile(`^\[([A-Za-z0-9_.:-]+)\]\s*`)
@@ -191,18 +197,39 @@ func (cs *ContractSet) parseFile(path, pkg string, requirePrefix bool) error {
 					return fmt.Errorf("%s:%d: ghost NAME SORT", path, ln)
 				}
 				sortS := strings.Join(f[1:], " ")
-				gd := &GhostDecl{Pkg: pkg, Name: f[0], PerObj: kw == "ghostfield"}
-				switch {
-				case sortS == "int":
+				gd := &GhostDecl{Pkg: pkg, Name: f[0]}
+				for strings.HasPrefix(sortS, "@") {
+					gd.Dims++
+					sortS = sortS[1:]
+				}
+				switch sortS {
+				case "int", "Int":
 					gd.Sort = "Int"
-				case sortS == "bool":
+				case "bool", "Bool":
 					gd.Sort = "Bool"
-				case sortS == "Int" || sortS == "Bool" || sortS == "Real" || strings.HasPrefix(sortS, "(Array"):
-					gd.Sort = sortS
+				case "real", "Real":
+					gd.Sort = "Real"
 				default:
 					gd.GoType = sortS
 				}
 				cs.Ghosts[f[0]] = gd
+			case "modset":
+				parts := strings.SplitN(rest, "=", 2)
+				if len(parts) != 2 {
+					return fmt.Errorf("%s:%d: modset NAME = loc, loc, ...", path, ln)
+				}
+				var locs []string
+				for _, m := range splitTop(parts[1], ',') {
+					locs = append(locs, strings.TrimSpace(m))
+				}
+				cs.ModSets[strings.TrimSpace(parts[0])] = locs
+			case "fieldfunc":
+				// fieldfunc Struct.field TypeContractName : calls through that field use the named type contract
+				f := strings.Fields(rest)
+				if len(f) != 2 {
+					return fmt.Errorf("%s:%d: fieldfunc Struct.field TypeContract", path, ln)
+				}
+				cs.FieldFuncs[pkg+"::"+f[0]] = pkg + "::" + f[1]
 			case "global":
 				cs.Globals = append(cs.Globals, &GlobalInv{Pkg: pkg, Text: rest, File: path, Line: ln})
 			case "lemma":
@@ -316,6 +343,23 @@ func (cs *ContractSet) parseFile(path, pkg string, requirePrefix bool) error {
 					cur.EnsPanic = append(cur.EnsPanic, c)
 				}
 				curClause = c
+			case "oncall":
+				f := strings.Fields(rest)
+				if len(f) < 2 {
+					return fmt.Errorf("%s:%d: oncall PARAM [label] EXPR", path, ln)
+				}
+				body := strings.TrimSpace(strings.TrimPrefix(rest, f[0]))
+				c := &Clause{Kind: "oncall", File: path, Line: ln}
+				if m := labelRe.FindStringSubmatch(body); m != nil {
+					c.Label = m[1]
+					body = body[len(m[0]):]
+				}
+				c.Text = body
+				if cur.OnCall == nil {
+					cur.OnCall = map[string][]*Clause{}
+				}
+				cur.OnCall[f[0]] = append(cur.OnCall[f[0]], c)
+				curClause = c
 			case "let":
 				c := &Clause{Kind: "let", File: path, Line: ln}
 				parts := strings.SplitN(rest, "=", 2)
@@ -328,7 +372,16 @@ func (cs *ContractSet) parseFile(path, pkg string, requirePrefix bool) error {
 				curClause = c
 			case "modifies":
 				for _, m := range splitTop(rest, ',') {
-					cur.Modifies = append(cur.Modifies, strings.TrimSpace(m))
+					m = strings.TrimSpace(m)
+					if strings.HasPrefix(m, "@") {
+						set, ok := cs.ModSets[m[1:]]
+						if !ok {
+							return fmt.Errorf("%s:%d: unknown modset %s", path, ln, m)
+						}
+						cur.Modifies = append(cur.Modifies, set...)
+						continue
+					}
+					cur.Modifies = append(cur.Modifies, m)
 				}
 			case "stable":
 				for _, m := range splitTop(rest, ',') {
